@@ -197,6 +197,60 @@ Theorem c12_as_bytes_ok :
      (is_False private = true \/ (is_True private = false /\ raw_is_private sk pk r = false))).
 Proof. exact as_bytes_ok. Qed.
 
+(* ---- generation: a key requested public-only IS public-only ---- *)
+Definition gen_flag_demo :=
+  let priv := fun (r : res (list (gkey unit unit))) => do l <- r; Ok (map (g_is_private unit unit) l) in
+  (priv (keyset_generate unit unit (fun _ => tt) (fun _ _ => tt) true KEC (PBool false) 2),
+   priv (do g <- registry_generate unit unit (fun _ => tt) (fun _ _ => tt) true KRSA 0 (PBool true); Ok [g]),
+   priv (do g <- registry_generate unit unit (fun _ => tt) (fun _ _ => tt) true KOct 0 PNone; Ok [g])).
+(* the registry wrapper forwards the flag unchanged to the class method *)
+Theorem c12_registry_generate_is_class_generate :
+  forall (sk pk : Type) (pub_of : sk -> pk) fresh k i private,
+    registry_generate sk pk pub_of fresh true k i private = class_generate sk pk pub_of fresh k i private.
+Proof. exact registry_is_class. Qed.
+
+(* for RSA / EC / OKP, any falsy flag (False, None, 0), any native key, any exporter of
+   the native PUBLIC key that writes non-private members only, and non-private extra
+   parameters: the key returned by JWKRegistry.generate_key is not private, its DEFAULT
+   as_dict() has no private member, a private export raises ValueError, the default
+   as_pem()/as_der() is public_bytes of the public key, as_pem(private=True) is an error *)
+Theorem c12_generate_public_is_public :
+  forall (sk pk : Type) (pub_of : sk -> pk) fresh export_private export_public private_bytes public_bytes,
+    (forall k p m, In m (dkeys (export_public k p)) -> member_private (value_registry k) m = false) ->
+    forall k i private params g,
+    k <> KOct -> py_truth private = false ->
+    (forall m, In m (dkeys params) -> member_private (value_registry k) m = false) ->
+    registry_generate sk pk pub_of fresh true k i private = Ok g ->
+    is_private (g_key sk pk export_private export_public g params) = false /\
+    (exists d, key_as_dict (g_key sk pk export_private export_public g params) PNone [] = Ok d /\
+               forall m, In m (dkeys d) -> member_private (value_registry k) m = false) /\
+    (forall flag ps, py_truth flag = true ->
+       key_as_dict (g_key sk pk export_private export_public g params) flag ps = Err EValue) /\
+    (forall enc pw,
+       as_bytes sk pk pub_of private_bytes public_bytes (g_raw g) enc PNone pw =
+       if encoding_ok enc then Ok (public_bytes (pub_of (fresh k i)) enc) else Err EValue) /\
+    (forall enc pw, exists e,
+       as_bytes sk pk pub_of private_bytes public_bytes (g_raw g) enc (PBool true) pw = Err e).
+Proof. exact generate_public_is_public. Qed.
+
+(* KeySet.generate_key_set(private=<falsy>): count keys, none of them private *)
+Theorem c12_generate_key_set_public :
+  forall (sk pk : Type) (pub_of : sk -> pk) fresh k private count l,
+    k <> KOct -> py_truth private = false ->
+    keyset_generate sk pk pub_of fresh true k private count = Ok l ->
+    length l = count /\ Forall (fun g => g_kind g = k /\ g_is_private sk pk g = false) l.
+Proof. exact keyset_generate_public. Qed.
+
+(* an oct key cannot be requested public-only: ValueError, never a silent private key *)
+Theorem c12_generate_oct_public_refused :
+  forall (sk pk : Type) (pub_of : sk -> pk) fresh i private,
+    py_truth private = false -> registry_generate sk pk pub_of fresh true KOct i private = Err EValue.
+Proof. exact generate_oct_public_refused. Qed.
+
+Example c12_generate_instance :
+  gen_flag_demo = (Ok [false; false], Ok [true], Err EValue).
+Proof. vm_compute. reflexivity. Qed.
+
 (* ---- thumbprint / generated kid ---- *)
 Theorem c12_thumbprint_field_table :
   thumb_fields value_registry_RSA = names ["n"; "e"; "kty"]%string /\
@@ -335,6 +389,10 @@ Print Assumptions c12_private_on_public_dict.
 Print Assumptions c12_private_on_public_bytes.
 Print Assumptions c12_as_bytes_public.
 Print Assumptions c12_as_bytes_ok.
+Print Assumptions c12_registry_generate_is_class_generate.
+Print Assumptions c12_generate_public_is_public.
+Print Assumptions c12_generate_key_set_public.
+Print Assumptions c12_generate_oct_public_refused.
 Print Assumptions c12_thumbprint_field_table.
 Print Assumptions c12_thumbprint_fields.
 Print Assumptions c12_thumbprint_fields_public.
